@@ -57,9 +57,9 @@ def _rerun_unstable(run):
 
 CHECK = {
     "suites": [
-        suite("consensus", "c17", 16, 240, stdin=True, args=["-suite", "consensus"], timeout={"quick": 600, "thorough": 1500}),
-        suite("fault", "c17", 12, 120, stdin=True, args=["-suite", "fault"], timeout={"quick": 600, "thorough": 1500}),
-        suite("conc", "c17", 8, 90, stdin=True, args=["-suite", "conc"], timeout={"quick": 600, "thorough": 1500}),
+        suite("consensus", "c17", 14, 240, stdin=True, args=["-suite", "consensus"], timeout={"quick": 600, "thorough": 1500}),
+        suite("fault", "c17", 10, 80, stdin=True, args=["-suite", "fault"], timeout={"quick": 600, "thorough": 1500}),
+        suite("conc", "c17", 7, 90, stdin=True, args=["-suite", "conc"], timeout={"quick": 600, "thorough": 1500}),
         suite("join", "c17", 4, 120, stdin=True, args=["-suite", "join"], timeout={"quick": 600, "thorough": 1500}),
         suite("cluster", "c17", 5, 100, stdin=True, args=["-suite", "cluster"], timeout={"quick": 600, "thorough": 2400}),
     ],
@@ -74,11 +74,12 @@ CHECK = {
             "shutdown+Clean of a removed peer, a non-voting server through the hook with WaitForSync, the same peer re-added and re-removed "
             "on the same data folder more often than backups_rotate (1-2) with snapshots forced), issued at leaders and followers; "
             "cluster suite (5 scripts quick, 100 thorough): full Cluster peers (Join, PeerAdd, PeerRemove with and without re-pinning, leave on shutdown, restart). "
-            "fault suite (12 scripts quick + corpus, 120 thorough): AddPeer / RmPeer on 2-3 real peers while the first k forwarded requests are refused "
+            "fault suite (10 scripts quick + corpus, 80 thorough): AddPeer / RmPeer on 2-3 real peers while the first k forwarded requests are refused "
             "or executed-and-answered-with-an-error by the leader's endpoint, or the leader loses the leadership between the leader check and its "
-            "Raft call, or Raft refuses the request (empty peer ID); k in {0, 1, commit_retries, commit_retries+1, all}, commit_retries in {0,1,2}, "
+            "Raft call, or the leader is partitioned away (connection gaters) right before the call and the network heals after the others elected, "
+            "or Raft refuses the request (empty peer ID); k in {0, 1, commit_retries, commit_retries+1, all}, commit_retries in {0,1,2}, "
             "issued at leaders and followers; result, forwards seen, own Raft calls and every member's peerset compared with the traced retry loops "
-            "under the oracle the plan stands for. conc suite (8 scripts quick, 90 thorough): phases of 2-4 calls (one membership change + pins/unpins) "
+            "under the oracle the plan stands for. conc suite (7 scripts quick, 90 thorough): phases of 2-4 calls (one membership change + pins/unpins) "
             "started together from different members, observed at sync points; admitted iff some order of each phase explains it. join suite "
             "(4 scripts quick, 120 thorough): a staging peer is added and waited for while a burst of 16-40 pins is logged. "
             "One case per observation point (script so far => what every running peer reports once all caught up); non-trivial = the script "
@@ -91,7 +92,8 @@ CHECK = {
                      "go/ast skeleton extractor (harness/extract_c17) for the statement order of the anchored functions"],
     "assumptions": ["consensus / cluster / fault scripts are sequential: a step starts after the previous one returned and all members caught up; "
                     "conc phases and the join burst are concurrent, observed at sync points",
-                    "fault plans: one fault kind per attempt, the forwarded call's own retry loop on the leader is healthy; no partitions, no SIGKILL of the leader",
+                    "fault plans: one fault kind per attempt, the forwarded call's own retry loop on the leader is healthy; one partition shape (the leader alone, "
+                    "call issued at the leader, healed once the others elected); no SIGKILL of the leader",
                     "C17_conc_full (what the concurrent model admits meets the clauses) is stated, not proved: validated by suite conc",
                     "steps are issued only while a quorum of voters is running (otherwise the harness reports the script inconclusive)",
                     "the Raft data folder is observed after Clean: no raft.db, no snapshot; rotated copies are counted next to it",
